@@ -19,7 +19,7 @@ use std::time::Duration;
 #[derive(Clone, Debug)]
 pub struct Cfg { pub w: u16, pub h: u16, pub lay: u32, pub name: String, pub dom: String, pub user: String, pub pw: String, pub hash: bool, pub ra: bool, pub blank: bool, pub auto: bool, pub nla: bool, pub check: bool }
 #[derive(Clone, Debug)]
-pub struct SrvCfg { pub sel: u32, pub id: usize, pub uid: u16, pub version: u32, pub license_new: bool, pub share: u32, pub caps: Vec<Vec<u8>>, pub source: Vec<u8>, pub chal_flags: u32, pub inputs: Vec<String>, pub script: Vec<Act>, pub reactivate: Option<u32>, pub reuse: u8, pub jrefuse: u8 }
+pub struct SrvCfg { pub sel: u32, pub id: usize, pub uid: u16, pub version: u32, pub license_new: bool, pub share: u32, pub caps: Vec<Vec<u8>>, pub source: Vec<u8>, pub chal_flags: u32, pub inputs: Vec<String>, pub script: Vec<Act>, pub reactivate: Option<u32>, pub reuse: u8, pub jrefuse: u8, pub ber: u8 }
 #[derive(Clone, Debug)]
 pub enum Act { Send(Vec<u8>), Pause(u64), CloseNotify, Close }
 
@@ -93,7 +93,7 @@ pub fn serve(raw: UnixStream, s: SrvCfg, acc_key: Vec<u8>, rawlog: Arc<Mutex<Vec
         if f.len() < 8 { continue; }
         let m = &f[7..];
         let mut ans: Vec<u8> = vec![];
-        if m[0] == 0x7f { ans.extend(refsrv::connect_response(&p)); log.ccr = refsrv::gcc_response(&p); }
+        if m[0] == 0x7f { ans.extend(refsrv::connect_response_form(&p, s.ber)); log.ccr = refsrv::gcc_response(&p); }
         else {
             match m[0] >> 2 {
                 10 => { let pl = refsrv::cat(&[&[0x2e, 0x00], &refsrv::be16(p.uid - 1001)]); log.au = pl.clone(); ans.extend(refsrv::x224_data(&pl)); }
@@ -225,9 +225,9 @@ pub fn run_conn(c: &Cfg, s: &SrvCfg) -> Run {
     let first = log.frames.iter().find(|f| f.len() >= 12 && f[7] >> 2 == 14).map(|f| ((f[10] as u32) << 8) | f[11] as u32).unwrap_or(0);
     let srvmsgs: Vec<String> = log.srv_msgs.iter().map(|m| hex(m)).collect();
     let capsh: Vec<String> = s.caps.iter().map(|x| hex(x)).collect();
-    let line = format!("conn w={} h={} lay={} name={} dom8={} usr8={} pwd8={} hash={} ra={} blank={} auto={} nla={} ssel={} id={} uid={} ver={} licnew={} share={} source={} caps={} cflags={:08x} react={} reuse={} jrefuse={} inputs={} sel={} first={} srvmsgs={} ccr={} au={} cj1={} cj2={} lic={} key={} dom16={} usr16={} neg={} chal={} cc={} ek={} pw16={} ud16={} cp16={} cp8={} spk={} r2obs={}",
+    let line = format!("conn w={} h={} lay={} name={} dom8={} usr8={} pwd8={} hash={} ra={} blank={} auto={} nla={} ssel={} id={} uid={} ver={} licnew={} share={} source={} caps={} cflags={:08x} react={} reuse={} jrefuse={} ber={} inputs={} sel={} first={} srvmsgs={} ccr={} au={} cj1={} cj2={} lic={} key={} dom16={} usr16={} neg={} chal={} cc={} ek={} pw16={} ud16={} cp16={} cp8={} spk={} r2obs={}",
         c.w, c.h, c.lay, hex(c.name.as_bytes()), hex(c.dom.as_bytes()), hex(c.user.as_bytes()), hex(c.pw.as_bytes()), c.hash as u8, c.ra as u8, c.blank as u8, c.auto as u8, c.nla as u8,
-        s.sel, s.id, s.uid, s.version, s.license_new as u8, s.share, hex(&s.source), capsh.join(","), s.chal_flags, s.reactivate.map(|x| x.to_string()).unwrap_or("-".into()), s.reuse, s.jrefuse, s.inputs.join(","),
+        s.sel, s.id, s.uid, s.version, s.license_new as u8, s.share, hex(&s.source), capsh.join(","), s.chal_flags, s.reactivate.map(|x| x.to_string()).unwrap_or("-".into()), s.reuse, s.jrefuse, s.ber, s.inputs.join(","),
         log.sel, first, srvmsgs.join(","), hex(&log.ccr), hex(&log.au), hex(log.cjc.get(0).unwrap_or(&vec![])), hex(log.cjc.get(1).unwrap_or(&vec![])), hex(&log.lic), hex(&key), hex(&utf16(&c.dom)), hex(&utf16(&c.user)), hex(&nego), hex(&log.chal), hex(&cc), hex(&log.k.clone().unwrap_or(vec![0; 16])),
         hex(&utf16(&c.pw)), hex(&utf16(&(c.user.to_uppercase() + &c.dom))), hex(&utf16(&client_pw)), hex(client_pw.as_bytes()), hex(&spk), r2obs);
     Run { status, log, line, out }
@@ -296,7 +296,7 @@ pub fn secrets_violation(c: &Cfg, r: &Run) -> Option<String> {
 /// byte arrive afterwards, did the connect succeed.
 pub fn tlsgate(em: &mut Emitter, check: bool, nla: bool, ra: bool, ssel: u32) {
     let c = Cfg { w: 800, h: 600, lay: 0x409, name: "rdp-rs".into(), dom: "d".into(), user: "u".into(), pw: "secret-pw".into(), hash: false, ra, blank: false, auto: false, nla, check };
-    let s = SrvCfg { sel: ssel, id: 1, uid: 1004, version: 0x80004, license_new: false, share: 0x103ea, caps: default_caps(), source: vec![], chal_flags: 0x62898235, inputs: vec![], script: vec![], reactivate: None, reuse: 0, jrefuse: 0 };
+    let s = SrvCfg { sel: ssel, id: 1, uid: 1004, version: 0x80004, license_new: false, share: 0x103ea, caps: default_caps(), source: vec![], chal_flags: 0x62898235, inputs: vec![], script: vec![], reactivate: None, reuse: 0, jrefuse: 0, ber: 0 };
     watch_begin(&format!("tlsgate check={} nla={} ra={} ssel={} sel=0", check as u8, nla as u8, ra as u8, ssel));
     let r = run_conn(&c, &s);
     let tls_up = r.log.note != "tls accept failed" && (!r.log.m1.is_empty() || !r.log.frames.is_empty());
@@ -371,16 +371,16 @@ pub fn run_case(toks: &[&str], em: &mut Emitter) {
     let caps: Vec<Vec<u8>> = get("caps").split(',').filter(|x| !x.is_empty()).map(|x| unhex(x)).collect();
     if toks[0] == "tlsgate" { tlsgate(em, b("check"), b("nla"), b("ra"), get("ssel").parse().unwrap_or(0)); return; }
     let s = SrvCfg { sel: get("ssel").parse().unwrap_or(0), id: get("id").parse().unwrap_or(1), uid: get("uid").parse().unwrap_or(1004), version: get("ver").parse().unwrap_or(0x80004), license_new: b("licnew"), share: get("share").parse().unwrap_or(0x103ea),
-        caps, source: unhex(&get("source")), chal_flags: u32::from_str_radix(&get("cflags"), 16).unwrap_or(0), inputs: get("inputs").split(',').filter(|x| !x.is_empty()).map(|x| x.to_string()).collect(), script: vec![], reactivate: get("react").parse().ok(), reuse: get("reuse").parse().unwrap_or(0), jrefuse: get("jrefuse").parse().unwrap_or(0) };
+        caps, source: unhex(&get("source")), chal_flags: u32::from_str_radix(&get("cflags"), 16).unwrap_or(0), inputs: get("inputs").split(',').filter(|x| !x.is_empty()).map(|x| x.to_string()).collect(), script: vec![], reactivate: get("react").parse().ok(), reuse: get("reuse").parse().unwrap_or(0), jrefuse: get("jrefuse").parse().unwrap_or(0), ber: get("ber").parse().unwrap_or(0) };
     let _ = emit(em, &c, &s);
 }
 
 /// the replayable part of a `conn` line (configuration and server choices, nothing observed)
 pub fn recipe_line(c: &Cfg, s: &SrvCfg) -> String {
     let capsh: Vec<String> = s.caps.iter().map(|x| hex(x)).collect();
-    format!("conn w={} h={} lay={} name={} dom8={} usr8={} pwd8={} hash={} ra={} blank={} auto={} nla={} check={} ssel={} id={} uid={} ver={} licnew={} share={} source={} caps={} cflags={:08x} react={} reuse={} jrefuse={} inputs={}",
+    format!("conn w={} h={} lay={} name={} dom8={} usr8={} pwd8={} hash={} ra={} blank={} auto={} nla={} check={} ssel={} id={} uid={} ver={} licnew={} share={} source={} caps={} cflags={:08x} react={} reuse={} jrefuse={} ber={} inputs={}",
         c.w, c.h, c.lay, hex(c.name.as_bytes()), hex(c.dom.as_bytes()), hex(c.user.as_bytes()), hex(c.pw.as_bytes()), c.hash as u8, c.ra as u8, c.blank as u8, c.auto as u8, c.nla as u8, c.check as u8,
-        s.sel, s.id, s.uid, s.version, s.license_new as u8, s.share, hex(&s.source), capsh.join(","), s.chal_flags, s.reactivate.map(|x| x.to_string()).unwrap_or("-".into()), s.reuse, s.jrefuse, s.inputs.join(","))
+        s.sel, s.id, s.uid, s.version, s.license_new as u8, s.share, hex(&s.source), capsh.join(","), s.chal_flags, s.reactivate.map(|x| x.to_string()).unwrap_or("-".into()), s.reuse, s.jrefuse, s.ber, s.inputs.join(","))
 }
 
 pub fn emit(em: &mut Emitter, c: &Cfg, s: &SrvCfg) -> Run {
@@ -432,7 +432,7 @@ pub fn generate(prop: &str, thorough: bool, seed: u64, part: (usize, usize), em:
                 nla: mode & 1 != 0, ra: mode & 2 != 0, blank: mode & 4 != 0, auto: mode & 8 != 0, hash: mode & 16 != 0, check: false };
             let mut flags: u32 = 0x40000000 | 0x20000000 | 0x00800000 | 0x00080000 | 0x00008000 | 0x00000200 | 0x00000020 | 0x00000010 | 0x00000004;
             if r.chance(1, 2) { flags |= 0x02000000; } if r.chance(3, 4) { flags |= 1; }
-            let s = SrvCfg { sel: 0, id: 1 + (mode as usize % 2), uid: 1004, version: 0x80004, license_new: false, share: 0x103ea, caps: default_caps(), source: b"RDP\0".to_vec(), chal_flags: flags, inputs: vec!["P10:20:1:1".into(), "K30:1".into()], script: vec![], reactivate: None, reuse: if round % 2 == 1 { 1 + (mode % 2) as u8 } else { 0 }, jrefuse: 0 };
+            let s = SrvCfg { sel: 0, id: 1 + (mode as usize % 2), uid: 1004, version: 0x80004, license_new: false, share: 0x103ea, caps: default_caps(), source: b"RDP\0".to_vec(), chal_flags: flags, inputs: vec!["P10:20:1:1".into(), "K30:1".into()], script: vec![], reactivate: None, reuse: if round % 2 == 1 { 1 + (mode % 2) as u8 } else { 0 }, jrefuse: 0, ber: 0 };
             let run = emit(em, &c, &s);
             if prop == "C04" { emit_strict(em, &run, &mut seen); }
         }
@@ -452,7 +452,7 @@ pub fn generate(prop: &str, thorough: bool, seed: u64, part: (usize, usize), em:
         let inputs: Vec<String> = (0..ninp).map(|_| if r.chance(1, 2) { format!("P{}:{}:{}:{}", r.below(65536), r.below(65536), r.below(4), r.below(2)) } else { format!("K{}:{}", r.below(256), r.below(2)) }).collect();
         let nsrc = r.below(6) as usize;
         let s = SrvCfg { sel: if c.nla && r.chance(1, 3) { 1 } else { 0 }, id: 1 + i % 2, uid, version: *r.pick(&[0x80004u32, 0x80001, 0x80005, 0x80010]), license_new: r.chance(1, 2), share: r.next() as u32,
-            caps, source: r.bytes(nsrc), chal_flags: 0x62898235 | if r.chance(1, 2) { 0x02000000 } else { 0 }, inputs, script: vec![], reactivate: match r.below(5) { 0 | 1 => Some(r.next() as u32), 2 => Some(0), _ => None }, reuse: if i % 7 == 3 { 1 } else if i % 7 == 5 { 2 } else { 0 }, jrefuse: if i % 11 == 4 { 1 + (i / 11 % 3) as u8 } else { 0 } };
+            caps, source: r.bytes(nsrc), chal_flags: 0x62898235 | if r.chance(1, 2) { 0x02000000 } else { 0 }, inputs, script: vec![], reactivate: match r.below(5) { 0 | 1 => Some(r.next() as u32), 2 => Some(0), _ => None }, reuse: if i % 7 == 3 { 1 } else if i % 7 == 5 { 2 } else { 0 }, jrefuse: if i % 11 == 4 { 1 + (i / 11 % 3) as u8 } else { 0 }, ber: if i % 5 == 2 { 1 + (i / 5 % 2) as u8 } else { 0 } };
         let run = emit(em, &c, &s);
         if prop == "C04" { emit_strict(em, &run, &mut seen); }
     }
